@@ -136,6 +136,17 @@ def check(case, ctx):
             results.append(m)
             if m:
                 kept.append(r)
+        # independent cross-check (catches state shared by ALL selector objects of the process): for the
+        # selgen-shaped records of stream/json the reference evaluator must agree with the post-filter
+        if exc_after is None and adapter == "stream":
+            for r, m in zip(plain, results):
+                if len(r._desc.get_field_tuples()) != len(selgen.SEL_FIELDS) and selgen.DROPPED_IN_FEWER.search(src):
+                    continue
+                ref = impl(selgen.reference_eval, src, r)
+                if ref.ok and bool(ref.value) != m:
+                    raise Violation("post-filter/differs-from-reference", "%s [%s]: match() gives %r, Python evaluation %r "
+                                    "for a %s record with fields %r" % (src, form, m, ref.value, r._desc.name,
+                                                                         [n for _, n in r._desc.get_field_tuples()]))
         during, exc_during = iterate(lambda: RecordReader(url, selector=make_sel(form, src)))
         if 0 < len(kept) < len(plain):
             ctx.nontriv()
